@@ -4,6 +4,7 @@ C02 — read-through: every read reflects the backend's current content.
 import SC.Lemmas.Seq
 import SC.Props.C04
 import SC.Lemmas.Merge
+import SC.Lemmas.Attach
 namespace SC.Props
 open SC
 
@@ -50,6 +51,50 @@ theorem C02_load_reflects_backend (s : State) (oi : Nat) (o : Obj) (d : J)
   | some o' =>
     simp only [ho', Option.map_some, Option.some.injEq] at h
     exact ⟨o', rfl, h ▸ (updNode_post (s.fam o) d o.root s.next hd ht hnn herr).1⟩
+
+/-- C02, second sentence: A CHILD HANDLE STAYS ATTACHED.  Memory `t` (any stale content), backend
+data `d` that passes the family's validators, both without duplicate keys; a path — any length —
+along which memory and data hold containers of the same kind (`kindsMatch`).  Then `t._update(d)`
+returns normally, the node that was at the path is still at the path WITH THE SAME IDENTITY (the
+handle the user holds is the object in the tree), and its content is exactly the data at that
+path ("its reads show fresh data"; "its writes persist" is then C01 applied to the handle). -/
+theorem C02_handle_stays_attached (fam : Fam) {ι : Type} (p : List Seg) (t : T) (d : Tr ι) (n : Nat)
+    (hv : Valid fam d) (hd : d.wf = true) (ht : t.wf = true) (hnn : d ≠ .leaf .null)
+    (hk : kindsMatch p t d = true) :
+    (updNode fam t d n).err = none ∧
+    ∃ c c' dc, Tr.sub p t = some c ∧ Tr.sub p (updNode fam t d n).val = some c' ∧
+      c'.id? = c.id? ∧ c.id?.isSome = true ∧ Tr.sub p d = some dc ∧ Eqv c' dc := by
+  obtain ⟨herr, c, c', h1, h2, h3, h4⟩ := attach fam p t d n hv hd ht hk
+  obtain ⟨dc, hdc, he⟩ := eqv_sub p _ d c' (updNode_post fam d t n hd ht hnn herr).1 h2
+  exact ⟨herr, c, c', dc, h1, h2, h3, h4, hdc, he⟩
+
+/-- ... and at the level of objects: the load of root object `oi` keeps every such handle -/
+theorem C02_load_keeps_handles (s : State) (oi : Nat) (o : Obj) (d : J) (p : List Seg)
+    (ho : s.objs[oi]? = some o) (hst : s.store o.res = some d)
+    (hv : Valid (s.fam o) d) (hd : d.wf = true) (ht : o.root.wf = true)
+    (hk : kindsMatch p o.root d = true) :
+    (loadRoot s oi).2 = none ∧
+    ∃ o' c c', (loadRoot s oi).1.objs[oi]? = some o' ∧ Tr.sub p o.root = some c ∧
+      Tr.sub p o'.root = some c' ∧ c'.id? = c.id? ∧ c.id?.isSome = true := by
+  obtain ⟨herr, c, c', h1, h2, h3, h4⟩ := attach (s.fam o) p o.root d s.next hv hd ht hk
+  have h := C04_load_is_merge s oi o d ho hst
+  have herr2 : (loadRoot s oi).2 = none := by
+    unfold loadRoot; simp only [ho, hst]; exact herr
+  cases ho' : (loadRoot s oi).1.objs[oi]? with
+  | none => simp [ho'] at h
+  | some o' =>
+    simp only [ho', Option.map_some, Option.some.injEq] at h
+    exact ⟨herr2, o', c, c', rfl, h1, by rw [h]; exact h2, h3, h4⟩
+
+/-- non-vacuity of attachment: a handle two levels down (dict inside a list inside the root dict)
+survives a reload that rewrites scalars around it, adds and removes keys -/
+example :
+    let fam : Fam := ⟨[.requireStringKey, .jsonFormat], [.requireStringKey, .jsonFormat]⟩
+    let t : T := .dict 0 [(.s "a", .list 1 [.leaf (.int 1), .dict 2 [(.s "k", .leaf (.int 1))]]), (.s "b", .leaf (.int 2))]
+    let d : J := .dict () [(.s "c", .leaf .null), (.s "a", .list () [.leaf (.bool true), .dict () [(.s "z", .list () [])], .leaf (.int 9)])]
+    kindsMatch [.key (.s "a"), .idx 1] t d = true ∧
+    ((Tr.sub [.key (.s "a"), .idx 1] (updNode fam t d 3).val).bind Tr.id?) = some 2 := by
+  decide
 
 /-- non-vacuity: a stale tree whose child must become null, one whose scalar must become a
 container, and a shrinking list — the merge returns normally and the hypotheses hold. -/
